@@ -1005,11 +1005,14 @@ func (dsc *dataStoreCommand) randomKey() (output respValue) {
 		l := len(dsc.ds.data.buckets)
 		n := rand.Intn(l)
 
-		for {
+		// one full lap at most: keys whose deadline has passed are skipped
+		for i := 0; i < l; i++ {
 			item := dsc.ds.data.buckets[n]
 			if item != nil {
-				output.data = respBulkString(item.key)
-				return
+				if sk, isSk := item.value.(*storeKey); isSk && !sk.isExpiredUnlocked() {
+					output.data = respBulkString(item.key)
+					return
+				}
 			}
 			n++
 			if n >= l {
@@ -1017,6 +1020,23 @@ func (dsc *dataStoreCommand) randomKey() (output respValue) {
 			}
 		}
 	}
+	return
+}
+
+// number of keys that have not expired
+func (dsc *dataStoreCommand) dbSize() (output respValue) {
+	dsc.lock()
+	defer dsc.unlock()
+
+	count := 0
+	for _, item := range dsc.ds.data.buckets {
+		if item != nil {
+			if sk, isSk := item.value.(*storeKey); isSk && !sk.isExpiredUnlocked() {
+				count++
+			}
+		}
+	}
+	output.data = respInt(count)
 	return
 }
 
